@@ -381,13 +381,23 @@ func (nt *vfbNet) StartNode(n *vfbNode, mode string) error {
 	}
 	n.handler = h
 	n.running = true
+	var serr error
 	switch mode {
 	case "start":
-		return h.Start(context.Background())
+		serr = h.Start(context.Background())
 	case "catchup":
 		h.Catchup(context.Background())
 	}
-	return nil
+	// the handler's ticker reads the clock in a goroutine of its own: until that goroutine has armed its first
+	// sleep (or its periodic ticker) the harness must not move the clock, or the first tick is aligned to a round
+	// boundary the clock has already been moved past and never comes when the clock is moved only once
+	armed := make(chan struct{})
+	go func() { n.clk.BlockUntil(1); close(armed) }()
+	select {
+	case <-armed:
+	case <-time.After(3 * time.Second):
+	}
+	return serr
 }
 
 func (nt *vfbNet) StartAll() error {
